@@ -52,12 +52,17 @@ func ruleFilterOps(r *Report) {
 		var ops []string
 		okArgs := true
 		var closure *ssa.Function
+		var unionSel *bool // the per-block step of Union is chosen before the call (a φ of two functions)
 		for _, c := range callsToDeep(fn, false, "(*column.Txn).rangeReadPair") {
 			cc, _, _ := callCommon(c.Inner)
 			// the per-block step: a literal, a named function or method value, possibly handed down
 			// through a helper's parameter; a choice between two (φ) contributes both
 			fv, _ := normE(cc.Args[2], c.Env, false)
 			var steps []*ssa.Function
+			if phi, isPhi := fv.(*ssa.Phi); isPhi && name == "(*column.Txn).Union" {
+				v := unionStepSelected(fn, phi)
+				unionSel = &v
+			}
 			if phi, isPhi := fv.(*ssa.Phi); isPhi {
 				seenStep := map[*ssa.Function]bool{}
 				for _, e := range phi.Edges {
@@ -116,7 +121,9 @@ func ruleFilterOps(r *Report) {
 		} else {
 			h.Check(len(clears) == 0, name+"/missing", r.P.Pos(fn.Pos()), "missing column ignored", "a missing column empties the selection")
 		}
-		if name == "(*column.Txn).Union" && closure != nil {
+		if name == "(*column.Txn).Union" && unionSel != nil {
+			h.Check(*unionSel, name+"/first", r.P.Pos(fn.Pos()), "And only for the first column of a fresh selection", "Union does not intersect exactly for the first column of a fresh selection and join otherwise")
+		} else if name == "(*column.Txn).Union" && closure != nil {
 			h.Check(unionFirstOK(fn, closure), name+"/first", r.P.Pos(fn.Pos()), "And only for the first column of a fresh selection", "Union does not intersect exactly for the first column of a fresh selection and join otherwise")
 		}
 	}
@@ -235,6 +242,213 @@ func isLoadOf(v, addr ssa.Value) bool {
 	}
 	// the same captured cell seen from a closure and from its creator
 	return sameExpr(ld.X, addr)
+}
+
+// stepOps: the bitmap operations a per-block step function applies to (dst, src).
+func stepOps(f *ssa.Function) []string {
+	var ops []string
+	for _, o := range callsWhere(f, func(_ ssa.Instruction, c2 *ssa.CallCommon) bool {
+		return methodOn(c2, "github.com/kelindar/bitmap", "Bitmap", "And", "AndNot", "Or", "Xor", "Clear", "Set", "Remove", "Ones")
+	}) {
+		oc, _, _ := callCommon(o)
+		ops = append(ops, baseName(oc.StaticCallee()))
+	}
+	sort.Strings(ops)
+	return ops
+}
+
+// isFreshTest: v is true exactly when the selection had not been set up when Union was entered:
+// !txn.setup (or a single-assignment local holding it), read before initialize() runs.
+func isFreshTest(fn *ssa.Function, v ssa.Value) (isIt bool, whenTrue bool) {
+	v = norm(v)
+	neg := false
+	for i := 0; i < 3; i++ {
+		inner, isN := isNot(v)
+		if !isN {
+			break
+		}
+		v, neg = norm(inner), !neg
+	}
+	ld, isLd := v.(*ssa.UnOp)
+	if !isLd || ld.Op != token.MUL {
+		return false, false
+	}
+	fr, isF := fieldOf(ld.X)
+	if !isF || fr.Struct != "column.Txn" || fr.Field != "setup" {
+		return false, false
+	}
+	inits := callsToDeep(fn, false, "(*column.Txn).initialize")
+	if len(inits) != 1 || ld.Parent() != fn || !precedes(ld, inits[0].Site) {
+		return false, false
+	}
+	return true, neg // !setup: true means fresh
+}
+
+// isFirstIteration: v is `i == 0` for a loop counter i that starts at 0 and is incremented.
+func isFirstIteration(v ssa.Value) bool {
+	bo, ok := v.(*ssa.BinOp)
+	if !ok || bo.Op != token.EQL {
+		return false
+	}
+	x, y := bo.X, bo.Y
+	if _, isC := constInt(x); isC {
+		x, y = y, x
+	}
+	if z, isC := constInt(y); !isC || z != 0 {
+		return false
+	}
+	x = strip(x)
+	start := int64(0)
+	var phi *ssa.Phi
+	switch t := x.(type) {
+	case *ssa.Phi:
+		phi = t
+	case *ssa.BinOp: // range index: φ(-1, i) + 1
+		if p, isPhi := t.X.(*ssa.Phi); isPhi && t.Op == token.ADD {
+			if one, isOne := constInt(t.Y); isOne && one == 1 {
+				phi, start = p, 1
+			}
+		}
+	}
+	if phi == nil {
+		return false
+	}
+	init := false
+	for _, e := range phi.Edges {
+		if c, isC := constInt(e); isC && c+start == 0 {
+			init = true
+		} else if bo2, isB := e.(*ssa.BinOp); !isB || bo2.Op != token.ADD {
+			return false
+		}
+	}
+	return init
+}
+
+// unionStepSelected: the per-block step handed to rangeReadPair is chosen before the call — a φ of
+// an intersecting and a joining function. The intersecting one is selected exactly when the
+// selection was fresh at entry and this is the first column: either under a flag that starts as
+// !setup and is cleared at the end of every iteration, or under `fresh && i == 0`.
+func unionStepSelected(fn *ssa.Function, phi *ssa.Phi) bool {
+	blk := phi.Block()
+	// the recognised leaves and the value each has for "first column of a fresh selection"
+	type leafKind int
+	const (
+		none leafKind = iota
+		flag
+		fresh
+		firstIter
+	)
+	kindOf := func(c ssa.Value) (leafKind, bool) {
+		if ph, isPhi := c.(*ssa.Phi); isPhi && isFirstFlag(fn, ph) {
+			return flag, true
+		}
+		if ld, isLd := c.(*ssa.UnOp); isLd && ld.Op == token.MUL {
+			if al, isAl := ld.X.(*ssa.Alloc); isAl && isFirstFlagCell(fn, al) {
+				return flag, true
+			}
+		}
+		if is, whenTrue := isFreshTest(fn, c); is {
+			return fresh, whenTrue
+		}
+		if isFirstIteration(c) {
+			return firstIter, true
+		}
+		return none, false
+	}
+	seen := map[leafKind]bool{}
+	feasible := func(flip leafKind) map[cfgEdge]bool {
+		_, feas := feasibleUnder(fn, func(c ssa.Value) (bool, bool) {
+			if b, isBool := c.Type().Underlying().(*types.Basic); !isBool || b.Kind() != types.Bool {
+				return false, false
+			}
+			k, want := kindOf(c)
+			if k == none {
+				return false, false
+			}
+			seen[k] = true
+			if k == flip {
+				want = !want
+			}
+			return want, true
+		})
+		return feas
+	}
+	feasT := feasible(none)
+	if !(seen[flag] || (seen[fresh] && seen[firstIter])) {
+		return false
+	}
+	var flips []map[cfgEdge]bool
+	for _, k := range []leafKind{flag, fresh, firstIter} {
+		if seen[k] {
+			flips = append(flips, feasible(k))
+		}
+	}
+	nAnd := 0
+	for k, e := range phi.Edges {
+		f := asFunc(strip(e))
+		if f == nil {
+			return false
+		}
+		edge := cfgEdge{blk.Preds[k], blk}
+		switch strings.Join(stepOps(f), ",") {
+		case "And":
+			nAnd++
+			if !feasT[edge] {
+				return false
+			}
+			for _, fv := range flips {
+				if fv[edge] {
+					return false // intersects although the selection was set up, or for a later column
+				}
+			}
+		case "Or":
+			if feasT[edge] {
+				return false // joins for the first column of a fresh selection
+			}
+		default:
+			return false
+		}
+	}
+	return nAnd >= 1
+}
+
+// isFirstFlag: a loop-carried boolean that starts as "fresh" (!setup, read before initialize) and
+// is false on every back edge.
+func isFirstFlag(fn *ssa.Function, phi *ssa.Phi) bool {
+	init, reset := false, false
+	for _, e := range phi.Edges {
+		if c, isC := e.(*ssa.Const); isC && c.Value != nil && c.Value.String() == "false" {
+			reset = true
+			continue
+		}
+		if is, whenTrue := isFreshTest(fn, e); is && whenTrue {
+			init = true
+			continue
+		}
+		return false
+	}
+	return init && reset
+}
+
+// isFirstFlagCell: the same flag kept in a variable cell (captured by a closure).
+func isFirstFlagCell(fn *ssa.Function, al *ssa.Alloc) bool {
+	init, reset := false, false
+	for _, ref := range *al.Referrers() {
+		st, isSt := ref.(*ssa.Store)
+		if !isSt || st.Addr != ssa.Value(al) {
+			continue
+		}
+		if c, isC := st.Val.(*ssa.Const); isC && c.Value != nil && c.Value.String() == "false" && reachAvoiding(st.Block(), st.Block(), nil, nil) {
+			reset = true
+			continue
+		}
+		if is, whenTrue := isFreshTest(fn, st.Val); is && whenTrue && !reachAvoiding(st.Block(), st.Block(), nil, nil) {
+			init = true
+			continue
+		}
+		return false
+	}
+	return init && reset
 }
 
 // unionFirstOK: Union intersects for the first column of a fresh selection and joins otherwise.
@@ -611,11 +825,13 @@ func ruleGuardedReads(r *Report) {
 		}
 		// value element reads: IndexAddr on a `data` field of a chunks element
 		var reads []*ssa.IndexAddr
-		allInstrs(fn, func(ins ssa.Instruction) {
-			if ia, ok := ins.(*ssa.IndexAddr); ok && isStorageData(ia.X) {
-				reads = append(reads, ia)
-			}
-		})
+		for _, f := range deepFuncs(fn) {
+			allInstrs(f, func(ins ssa.Instruction) {
+				if ia, ok := ins.(*ssa.IndexAddr); ok && isStorageData(ia.X) {
+					reads = append(reads, ia)
+				}
+			})
+		}
 		ok := len(reads) >= 1
 		for _, ia := range reads {
 			presence := edgeGuarded(ia.Block(), func(c ssa.Value) (bool, bool) {
@@ -702,11 +918,8 @@ func ruleSortCmp(r *Report) {
 		if !ok || c.Call.StaticCallee() == nil || !strings.HasPrefix(baseName(c.Call.StaticCallee()), "NewBTreeG") {
 			return
 		}
-		switch v := norm(c.Call.Args[0]).(type) {
-		case *ssa.Function:
-			less = v
-		case *ssa.MakeClosure:
-			less = v.Fn.(*ssa.Function)
+		if f := asFunc(norm(c.Call.Args[0])); f != nil {
+			less = originOf(f)
 		}
 	})
 	if less == nil {
@@ -963,12 +1176,34 @@ func ruleExpire(r *Report) {
 	}
 	if fn := r.Anchor("(column.Row).SetTTL"); fn != nil {
 		ok := false
+		// a store into the expire column: Row.SetInt64("expire", v) or, written out, the Set of the
+		// int64 accessor obtained for "expire"; expireVal is the value stored
+		expireVal := func(cc *ssa.CallCommon) ssa.Value {
+			switch {
+			case calleeIs(cc, "(column.Row).SetInt64") && len(cc.Args) >= 3:
+				if s, isS := constString(cc.Args[1]); isS && s == "expire" {
+					return cc.Args[2]
+				}
+			case calleeIs(cc, "(column.rwInt64).Set") && len(cc.Args) >= 2:
+				if dependsOn(cc.Args[0], func(v ssa.Value) bool {
+					c, isC := v.(*ssa.Call)
+					if !isC || len(c.Call.Args) < 2 {
+						return false
+					}
+					if n := calleeShort(&c.Call); n != "(*column.Txn).Int64" && !strings.HasPrefix(n, "column.readNumberOf") {
+						return false
+					}
+					s, isS := constString(c.Call.Args[1])
+					return isS && s == "expire"
+				}, 5) {
+					return cc.Args[1]
+				}
+			}
+			return nil
+		}
 		isExpireSet := func(ins ssa.Instruction) *ssa.CallCommon {
 			cc, isDefer, isGo := callCommon(ins)
-			if cc == nil || isDefer || isGo || !calleeIs(cc, "(column.Row).SetInt64") || len(cc.Args) < 3 {
-				return nil
-			}
-			if s, isS := constString(cc.Args[1]); !isS || s != "expire" {
+			if cc == nil || isDefer || isGo || expireVal(cc) == nil {
 				return nil
 			}
 			return cc
@@ -977,13 +1212,13 @@ func ruleExpire(r *Report) {
 			return dependsOn(v, func(x ssa.Value) bool { return x == ssa.Value(fn.Params[1]) }, 8)
 		}
 		merged := false
-		for _, c := range callsTo(fn, false, "(column.Row).SetInt64") {
+		for _, c := range callsTo(fn, false, "(column.Row).SetInt64", "(column.rwInt64).Set") {
 			cc := isExpireSet(c)
 			if cc == nil {
 				continue
 			}
 			// one store of a value chosen before: 0 on one edge, the deadline on the other
-			if phi, isPhi := norm(cc.Args[2]).(*ssa.Phi); isPhi {
+			if phi, isPhi := norm(expireVal(cc)).(*ssa.Phi); isPhi {
 				merged = true
 				zero, dead := false, false
 				for _, e := range phi.Edges {
@@ -1013,10 +1248,10 @@ func ruleExpire(r *Report) {
 				if cc == nil {
 					return ""
 				}
-				if z, isC := constInt(cc.Args[2]); isC && z == 0 {
+				if z, isC := constInt(expireVal(cc)); isC && z == 0 {
 					return "never"
 				}
-				if dependsOnTTL(cc.Args[2]) {
+				if dependsOnTTL(expireVal(cc)) {
 					return "deadline"
 				}
 				return "other"
